@@ -254,13 +254,17 @@ def proxy_conversion_positional(prog, adt, proxy):
     return True, "%d fields carried over position by position" % n, b
 
 
-def validators(rep, pkr, skr):
-    """Ok-condition of each validating conversion == invariant table entry; Ok payload == the validated fields."""
+def validators(rep, pkr, skr, only=None):
+    """Ok-condition of each validating conversion == invariant table entry; Ok payload == the validated fields.
+    `only`: restrict to the named types (other properties share single entries as necessary conditions)."""
     prog = rep.prog
+
+    def want_(nm):
+        return only is None or nm in only
     # PublicKey
     specs = []
     b = try_from_impl(prog, PK, lambda t: t[0] == "adt" and t[1] == UNCHECKED[PK])
-    if rep.anchor("TryFrom<UncheckedPublicKey> for PublicKey", b) and pkr:
+    if want_("PublicKey") and rep.anchor("TryFrom<UncheckedPublicKey> for PublicKey", b) and pkr:
         S = Session(prog)
         r = S.eval(b)
         rep.fn(b)
@@ -271,7 +275,7 @@ def validators(rep, pkr, skr):
         want = bb.AND(bb.AND(nonzero(S, fld(u, pkr["g1"])), bb.AND(nonzero(S, fld(u, pkr["g2"])), nonzero(S, fld(u, pkr["x2"])))), bb.NOT(any_atom(S, arr)))
         finish(rep, S, b, r, want, "PublicKey", PK, u, 5)
     b = try_from_impl(prog, SK, lambda t: t[0] == "adt" and t[1] == UNCHECKED[SK])
-    if rep.anchor("TryFrom<UncheckedSecretKey> for SecretKey", b) and skr:
+    if want_("SecretKey") and rep.anchor("TryFrom<UncheckedSecretKey> for SecretKey", b) and skr:
         S = Session(prog)
         r = S.eval(b)
         rep.fn(b)
@@ -281,7 +285,7 @@ def validators(rep, pkr, skr):
         want = bb.AND(bb.AND(nonzero(S, fld(u, skr["x"])), nonzero(S, fld(u, skr["x1"]))), bb.NOT(any_atom(S, S.alg.zero_atom(S.alg.poly(("E", ys))))))
         finish(rep, S, b, r, want, "SecretKey", SK, u, 3)
     b = try_from_impl(prog, PARAMS, lambda t: t[0] == "adt" and t[1] == UNCHECKED[PARAMS])
-    if rep.anchor("TryFrom<UncheckedPedersenParameters> for PedersenParameters", b):
+    if want_("PedersenParameters") and rep.anchor("TryFrom<UncheckedPedersenParameters> for PedersenParameters", b):
         S = Session(prog)
         r = S.eval(b)
         rep.fn(b)
@@ -294,7 +298,7 @@ def validators(rep, pkr, skr):
         want = bb.AND(nonzero(S, fld(u, hi)), bb.NOT(any_atom(S, S.alg.zero_atom(S.alg.poly(("E", S.canon(fld(u, gi))))))))
         finish(rep, S, b, r, want, "PedersenParameters", PARAMS, u, 2)
     b = try_from_impl(prog, SIG, lambda t: t[0] == "adt" and t[1] == UNCHECKED[SIG])
-    if rep.anchor("TryFrom<UncheckedSignature> for Signature", b):
+    if want_("Signature") and rep.anchor("TryFrom<UncheckedSignature> for Signature", b):
         S = Session(prog)
         r = S.eval(b)
         rep.fn(b)
@@ -304,7 +308,7 @@ def validators(rep, pkr, skr):
         want = nonzero(S, fld(u, i1))
         finish(rep, S, b, r, want, "Signature", SIG, u, 2)
     b = try_from_impl(prog, NONCE, lambda t: t[0] == "adt" and t[1] == UNCHECKED[NONCE])
-    if rep.anchor("TryFrom<UncheckedNonce> for Nonce", b):
+    if want_("Nonce") and rep.anchor("TryFrom<UncheckedNonce> for Nonce", b):
         S = Session(prog)
         r = S.eval(b)
         rep.fn(b)
@@ -312,7 +316,7 @@ def validators(rep, pkr, skr):
         want = S.alg.bdd.NOT(S.alg.eq(fld(u, 0), ("const", CLOSE_CONST)))
         finish(rep, S, b, r, want, "Nonce", NONCE, u, 1)
     b = try_from_impl(prog, BAL, lambda t: t == ("prim", "u64"))
-    if rep.anchor("TryFrom<u64> for Balance", b):
+    if want_("Balance") and rep.anchor("TryFrom<u64> for Balance", b):
         S = Session(prog)
         r = S.eval(b)
         rep.fn(b)
@@ -326,7 +330,7 @@ def validators(rep, pkr, skr):
     # RevocationPair: C05's invariant rule on the decode route
     from .c05 import check_pair_values, impl_try_from, URP
     bp = impl_try_from(prog, REVPAIR, URP)
-    if rep.anchor("TryFrom<UncheckedRevocationPair> for RevocationPair", bp):
+    if want_("RevocationPair") and rep.anchor("TryFrom<UncheckedRevocationPair> for RevocationPair", bp):
         sub = SubReport(rep, "decode-invariant", "RevocationPair")
         check_pair_values(sub, bp, "producer")
 
@@ -443,9 +447,12 @@ def codec_pairs(rep, wm):
             el = [q for q in S.eng.unknown_calls if q.endswith("SerializeSeq::serialize_element")]
             src_ok = len(loops) == 1 and loops[0].src is not None and S.canon(strip_shape(loops[0].src)) == ("arg", 1)
             wrapped = "SerWrapper" in S.show(w) if w is not None else False
-            if src_ok and el and wrapped:
+            rd_ok, rd_why = reader_exhausts(rep, db)
+            if src_ok and el and wrapped and rd_ok:
                 analysed.add("SerializeElement:" + nm)
-                rep.ok("codec-pairs", nm, sample="writer iterates the whole sequence once, one serialize_element(SerWrapper(&e)) per element; reader collects next_element::<wrapper> (C16: bounded)")
+                rep.ok("codec-pairs", nm, sample="writer iterates the whole sequence once, one serialize_element(SerWrapper(&e)) per element; reader: " + rd_why)
+            elif src_ok and el and wrapped:
+                rep.fail("codec-pairs", nm, "<%s as SerializeElement>::deserialize accepts a sequence it has not read to its end (%s): an encoding announcing more elements than the writer emits decodes successfully - decoding is not restricted to canonical encodings" % (nm, rd_why), site=db.loc())
             else:
                 rep.fail("codec-pairs", nm, "<%s as SerializeElement>::serialize is not one pass over the whole sequence through the element codec (loops=%d, source ok=%s)" % (nm, len(loops), src_ok), site=sb.loc())
     # helper modules with free serialize/deserialize functions
@@ -506,6 +513,69 @@ def codec_pairs(rep, wm):
                 c.split(":", 1)[1].split(",")[0].split("<")[0] == k.split(",")[0].split("<")[0] for k in sers) else c
         if base not in analysed:
             rep.fail("codec-pairs", "%s@%s" % (c, adt.split("::")[-1]), "wire type %s uses the custom codec %s, which is not an analysed writer/reader pair" % (adt.split("::")[-1], c))
+
+
+def reader_exhausts(rep, db, _depth=0):
+    """The sequence reader `db` (= <T as SerializeElement>::deserialize) returns Ok only after its SeqAccess reported the
+    end of the sequence: every way out of the reading loop that can lead to an Ok result is the `next_element() == Ok(None)`
+    exit.  Returns (ok, explanation)."""
+    prog = rep.prog
+    vs = [b for b in prog.bodies.values() if b.desc.get("trait_item", "").endswith("de::Visitor::visit_seq")
+          and str(b.desc.get("impl", "")).startswith(db.id + "::")]
+    if not vs and _depth < 2:
+        # a wrapper reader (Box<[G; N]>): it must obtain its value from another reader of the same trait that does
+        inner = [prog.bodies[cd["id"]] for b_, bi, t, cd, od in calls_in(prog, db)
+                 if od.get("id", "").endswith("SerializeElement::deserialize") and cd.get("id") in prog.bodies and cd.get("id") != db.id]
+        if len(inner) == 1:
+            okr, why = reader_exhausts(rep, inner[0], _depth + 1)
+            return okr, "forwards to %s: %s" % (ty_str(inner[0].desc.get("self_ty")), why)
+    if len(vs) != 1:
+        return False, "no single visit_seq belonging to this reader (%d found)" % len(vs)
+    b = vs[0]
+    rep.fn(b)
+    S = Session(prog)
+    r = S.eval(b)
+    if r is None:
+        return False, "visit_seq has no normal return"
+    bdd = S.eng.bdd
+    gen = [(uid, li) for uid, li in S.eng.loops.items() if li.kind == "generic"]
+    if len(gen) != 1:
+        return False, "%d reading loops" % len(gen)
+    uid, li = gen[0]
+
+    def is_end_exit(cond):
+        """cond implies: next_element(..) is Ok and its payload is None (two-variant enums: discr == 0 <=> discr != 1)"""
+        lits = bdd.necessary_literals(cond) if isinstance(cond, int) else []
+        got_ok = got_none = False
+        for a, v in lits:
+            if not (a[0] == "eq" and a[1][0] == "discr" and a[2][0] == "int" and a[2][1] in (0, 1)):
+                continue
+            x = a[1][1]
+            is0 = (a[2][1] == 0) == bool(v)         # the literal says discr(x) == 0
+            if x[0] == "call" and x[1].endswith("SeqAccess::next_element") and is0:
+                got_ok = True
+            if x[0] == "vfield" and x[2] == 0 and x[1][0] == "call" and x[1][1].endswith("SeqAccess::next_element") and is0:
+                got_none = True
+        return got_ok and got_none
+    ends = [is_end_exit(c) for c, _t in li.early]
+    if not any(ends):
+        return False, "the reading loop has no exit on next_element() == Ok(None)"
+    single = len(li.early) == 1
+    for pc, leaf in expand(S, r):
+        if not (leaf[0] == "struct" and leaf[1].endswith("result::Result") and leaf[2] == 0):
+            continue
+        # exits compatible with this Ok path (exit k is taken when its atom holds and no earlier one does)
+        for k in range(len(li.early)):
+            if single:
+                compat = True
+            else:
+                c = bdd.AND(pc, bdd.var(("exit", uid, k)))
+                for j in range(k):
+                    c = bdd.AND(c, bdd.NOT(bdd.var(("exit", uid, j))))
+                compat = c != 0
+            if compat and not ends[k]:
+                return False, "an Ok result is reachable through loop exit %d, taken under %s" % (k, S.show(("b", li.early[k][0]))[:160])
+    return True, "Ok only after next_element() returned Ok(None) (%d loop exits, %d of them end-of-sequence)" % (len(ends), sum(ends))
 
 
 def strip_shape(shape):
